@@ -2,6 +2,7 @@ package t1
 
 import (
 	"fmt"
+	"sort"
 	"strings"
 	"testing"
 
@@ -131,6 +132,34 @@ func c05Interesting(f *model.FieldInfo) bool {
 
 var c05Want = map[string]func(*model.FieldInfo) bool{}
 
+var variantsWithMemo = map[model.FKind][]string{}
+
+// variantsWith lists the variants whose schema has a field of kind k.
+func variantsWith(k model.FKind) []string {
+	if r, ok := variantsWithMemo[k]; ok {
+		return r
+	}
+	var out []string
+	for _, v := range variants.All {
+		v.MustInit()
+		for _, si := range v.Structs {
+			found := false
+			for _, f := range si.Fields {
+				if f.Kind == k {
+					found = true
+				}
+			}
+			if found {
+				out = append(out, v.Name)
+				break
+			}
+		}
+	}
+	sort.Strings(out)
+	variantsWithMemo[k] = out
+	return out
+}
+
 // mergeCase is one evaluated direction MergeStructs(x, y).
 type mergeCase struct {
 	ref *refResult
@@ -147,11 +176,15 @@ func TestC05(t *testing.T) {
 	checkWitnesses(t)
 	cnt := newCounter()
 	rapid.Check(t, func(rt *rapid.T) {
-		v := th.PickVariant(rt, th.AllVariants...)
+		focus := rapid.SampledFrom([]string{"none", "none", "none", "none", "ordered", "ordered", "unkeyed", "unkeyed", "leaf-list"}).Draw(rt, "focus")
+		fk := map[string]model.FKind{"ordered": model.FOrdList, "unkeyed": model.FUList, "leaf-list": model.FLeafList}[focus]
+		names := th.AllVariants
+		if focus != "none" {
+			names = variantsWith(fk)
+		}
+		v := th.PickVariant(rt, names...)
 		v.MustInit()
 		o := model.GenOpts{MaxList: 4}
-		focus := rapid.SampledFrom([]string{"none", "none", "none", "none", "ordered", "ordered", "unkeyed", "leaf-list"}).Draw(rt, "focus")
-		fk := map[string]model.FKind{"ordered": model.FOrdList, "unkeyed": model.FUList, "leaf-list": model.FLeafList}[focus]
 		switch shape := rapid.IntRange(0, 9).Draw(rt, "shape"); {
 		case focus != "none":
 			o.MaxList = 5
@@ -175,6 +208,9 @@ func TestC05(t *testing.T) {
 		m := model.GenTree(rt, v, o)
 		mode := rapid.SampledFrom([]string{"disjoint", "compat", "compat", "rare", "rare", "rare", "mixed"}).Draw(rt, "split")
 		sp := &splitter{rt: rt, v: v, compat: mode == "compat", disjoint: mode == "disjoint", rare: mode == "rare", focus: fk, hasFocus: focus != "none"}
+		if focus != "none" {
+			sp.keep = o.Want
+		}
 		a, b := sp.split(m)
 		overwrite := rapid.IntRange(0, 2).Draw(rt, "overwrite") == 0
 		var opts []ygot.MergeOpt
@@ -242,8 +278,9 @@ func TestC05(t *testing.T) {
 	cnt.require(t, "C05", 3, "pair:disjoint", "pair:leaf-equal-overlap", "pair:leaf-conflict", "pair:keyed-entry-overlap",
 		"pair:ll-equal", "pair:ll-disjoint", "pair:ll-partial", "expect:ok", "expect:fail", "overwrite:true", "overwrite:false",
 		"pair:ord-disjoint", "pair:ord-equal", "pair:ord-b-subset-of-a")
-	cnt.require(t, "C05", 1, "pair:ord-a-strict-subset-of-b", "pair:ord-permutation", "pair:ord-partial-overlap", "expect:fail-single-reason")
-	cnt.require(t, "C05", 0.4, "pair:ul-equal", "pair:ul-disjoint", "pair:ul-partial", "pair:ul-permuted", "pair:ll-permuted", "pair:binary-leaf-conflict")
+	cnt.require(t, "C05", 1, "pair:ord-permutation", "pair:ord-partial-overlap", "pair:ord-overlap-b-first-key-new", "expect:fail-single-reason", "pair:ll-permuted", "pair:binary-leaf-conflict",
+		"pair:ul-equal", "pair:ul-disjoint", "expect:no-verdict")
+	cnt.require(t, "C05", 0.4, "pair:ord-a-strict-subset-of-b", "pair:ul-permuted", "pair:ul-partial")
 }
 
 func intersectsLists(r *refResult) bool {
